@@ -486,6 +486,12 @@ def f_list(rng, sid):
             drain(sc, 3000, "h=%s" % rng.choice(["3", "0", "7"]))
     sc.inp(b"AT#LS" + rng.choice([b"\n", b"\r\n"]))
     drain(sc, 8000, "h=7")
+    if rng.random() < 0.6:
+        # then ask for what the list advertised (and for what it did not): every form of some commands
+        for c in rng.sample(cmds, min(len(cmds), 3)):
+            for suf in (b"", b"?", b"=?"):
+                sc.inp(b"AT" + c.name + suf + b"\n")
+                drain(sc, 3000, "h=3")
     if rng.random() < 0.5:
         sc.op("flag c %d dis %d" % (rng.randrange(ncmd), rng.random() < 0.5))
         sc.op("flag g %d %d" % (rng.randrange(ng), rng.random() < 0.3))
@@ -765,7 +771,7 @@ PLAN = {
     "C16": [("mutex", 100, 1200), ("mixed", 40, 400)],
     "C17": [("mutex", 60, 600), ("evt", 40, 400)],
     "C18": [("mixed", 60, 700), ("evt", 50, 500), ("hold", 30, 300), ("sched", 20, 200)],
-    "C19": [("list", 120, 1500), ("fit", 100, 1200), ("lines", 30, 300)],
+    "C19": [("list", 120, 1500), ("fit", 100, 1200), ("ret", 60, 500), ("lines", 30, 300)],
     "C20": [("lines", 100, 1200), ("cap", 30, 300), ("mixed", 20, 200), ("hold", 30, 300)],
 }
 
